@@ -16,7 +16,7 @@ PROP = "C15"
 LEVEL = "exploration"
 ENGINE = "EP"
 N = {"quick": 350, "thorough": 16000}
-TIME = {"quick": 45, "thorough": 480}
+TIME = {"quick": 300, "thorough": 480}
 DRAWS = 300
 RULE = ("Random grids of 2-12 daily/irregular timesteps of which ~85% carry an event, two possibly overlapping folds, "
         "episode length n = 1 .. (event-bearing steps in fold)+1 (every value), sampling_span none or 3. Per configuration 300 "
